@@ -12,10 +12,6 @@ open MW.Gen.KsCodec (keystoreVersionName masterPrivKeyName masterPubKeyName cryp
 
 -- ------------------------------------------------------------------ ChangePubPassphrase, all keystores
 
-/-- the byte inputs of one ChangePubPassphrase step -/
-def chpubStepB (C : BCrypto) (ρ : PubVal) (new : Pass) (s : String × Nat × Term) : Bytes × Bytes × Bytes :=
-  (C.walletId s.1, valBytes C ρ (s.1, .mpub) (paramsT s.2.1 new), valBytes C ρ (s.1, .cpub) (.enc (masterKey s.2.1 new) s.2.2))
-
 theorem chpubAll_refines (C : BCrypto) (L : Laws C) (ρ : PubVal) (new : Pass) (steps : List (String × Nat × Term)) :
     ∀ (db : DB) (t : Tree), Rep C ρ db t →
       ∃ t', chpubAllB t (steps.map (chpubStepB C ρ new)) = .ok t' ∧
@@ -30,14 +26,6 @@ theorem chpubAll_refines (C : BCrypto) (L : Laws C) (ρ : PubVal) (new : Pass) (
     · simp only [List.map_cons, chpubAllB, chpubStepB, h1, seqE_ok]
       exact h2
     · simpa [List.flatMap_cons, MW.Lemmas.SecretsDB.putAll_append] using hr2
-
-/-- the steps of the symbolic ChangePubPassphrase: keystore, fresh salt, the public crypto key read with the old passphrase -/
-def chpubSteps (st : St) (old : Pass) : List (String × Nat × Term) :=
-  ((List.range st.wal.length).zip st.wal).map (fun ie =>
-    (ie.2.1, st.nonce + ie.1,
-      match deriveKey (dbGet st.db ie.2.1 .mpub) old with
-      | some mkOld => (dec mkOld (dbGet st.db ie.2.1 .cpub)).getD (.pub "missing")
-      | none => .pub "missing"))
 
 theorem chpub_ok_db {st : St} {old new : Pass} (h : (chpub st old new).2 = .ok) :
     (chpub st old new).1.db = putAll st.db ((chpubSteps st old).flatMap (fun s => chpubEntries s.1 s.2.1 new s.2.2)) := by
